@@ -10,6 +10,7 @@ import (
 	"os/exec"
 	"path/filepath"
 	"strings"
+	"sync"
 	"sync/atomic"
 	"time"
 
@@ -35,7 +36,7 @@ type totCase struct {
 }
 
 var totLit = map[string]string{
-	"null": "null", "true": "true", "0": "0", "1": "1", "-1": "-1", "0.5": "0.5", "huge": "1e+300",
+	"null": "null", "true": "true", "0": "0", "1": "1", "-1": "-1", "0.5": "0.5", "-0.5": "-0.5", "huge": "1e+300",
 	"estr": "\"\"", "str": "\"abc\"", "numstr": "\"1\"", "elist": "[]", "list": "[1, 2, 3]", "nlist": "[[1], [2]]",
 	"emap": "{}", "map": "{\"a\" : 1}", "func": "vfunc",
 	// indices
@@ -315,7 +316,39 @@ func C06(r *ev.Run) {
 
 // ---- programs which may end the whole process: each runs in a process of its own ----------------------------
 
-func init() { childModes["c06iso"] = c06IsoChild }
+func init() { childModes["c06iso"] = c06IsoChild; childModes["c06conc"] = c06ConcChild }
+
+// c06ConcChild: 16 goroutines add events of kinds the processor has never seen, all at the same moment, while sinks run.
+func c06ConcChild(args []string) {
+	verifhook.Set(func(string, ...interface{}) {})
+	proc := engine.NewProcessor(4)
+	proc.ThreadPool().TooManyCallback = func() {}
+	proc.AddRule(&engine.Rule{Name: "r1", KindMatch: []string{"k.*"}, ScopeMatch: []string{}, StateMatch: map[string]interface{}{"a": nil},
+		Action: func(p engine.Processor, m engine.Monitor, e *engine.Event, tid uint64) error { return nil }})
+	proc.Start()
+	var wg sync.WaitGroup
+	start := make(chan struct{})
+	for w := 0; w < 16; w++ {
+		w := w
+		wg.Add(1)
+		go func() {
+			defer wg.Done()
+			<-start
+			for k := 0; k < 300; k++ {
+				kind := []string{"k", fmt.Sprintf("new%d", (k*16+w)%1200)}
+				if k%3 == 0 {
+					kind = []string{fmt.Sprintf("other%d", k*16+w), "x"}
+				}
+				proc.AddEvent(engine.NewEvent("e", kind, map[interface{}]interface{}{"a": float64(k)}), nil)
+			}
+		}()
+	}
+	close(start)
+	wg.Wait()
+	proc.Finish()
+	fmt.Println("ISO-RESULT value concurrent AddEvent done")
+	os.Exit(0)
+}
 
 func c06IsoChild(args []string) {
 	verifhook.Set(func(string, ...interface{}) {})
@@ -345,6 +378,22 @@ func runC06Isolated(r *ev.Run) {
 	self, err := os.Executable()
 	if err != nil {
 		return
+	}
+	for rep := 0; rep < 3; rep++ {
+		cmd := exec.Command(self, "C06")
+		cmd.Env = append(os.Environ(), "VERIF_CHILD=c06conc")
+		b, _ := cmd.CombinedOutput()
+		out := string(b)
+		r.Case(fmt.Sprintf("isolated:concurrent AddEvent of new kinds/%d", rep), true)
+		if strings.Contains(out, "ISO-RESULT value") {
+			continue
+		}
+		if crashLine(out) != "" {
+			r.Violation("C06 process death: events of new kinds added by several goroutines at once", "the process died: "+crashLine(out), map[string]string{"output_head": headStr(out, 1500)})
+		} else {
+			r.Inconclusive("concurrent AddEvent child gave no result: " + headStr(out, 300))
+		}
+		break
 	}
 	for _, p := range c06IsoPrograms {
 		cmd := exec.Command(self, "C06")
